@@ -13,6 +13,7 @@ from pyasn1.compat.integer import to_bytes
 from pyasn1.compat.octets import (int2oct, oct2int, ints2octs, null,
                                   str2octs, isOctetsType)
 from pyasn1.type import char
+from pyasn1.type import constraint
 from pyasn1.type import tag
 from pyasn1.type import univ
 from pyasn1.type import useful
@@ -189,6 +190,12 @@ class BitStringEncoder(AbstractItemEncoder):
         if asn1Spec is not None:
             # TODO: try to avoid ASN.1 schema instantiation
             value = asn1Spec.clone(value)
+
+        if value.subtypeSpec:
+            # the padded value and its fragments are not values of a
+            # SIZE-constrained type
+            value = value.clone(
+                subtypeSpec=constraint.ConstraintsIntersection())
 
         valueLength = len(value)
         if valueLength % 8:
